@@ -466,8 +466,8 @@ func runC04(c *Ctx) {
 		redisGcStorm(c, r, i)
 		gcStorm(c, r, i, "memory")
 	}
-	for _, pre := range []string{"E", "-", "E,S,E"} {
-		udpOverlap(c, pre, 12)
+	for _, pre := range []string{"E", "-", "E,S,E", "E", "S,E,E"} { // (repeated: the overlap needs two requests in flight at once, which a loaded machine does not always grant)
+		udpOverlap(c, pre, 24)
 	}
 	concurrentUDP(c, r, 16, c.N/40+10)
 }
